@@ -300,6 +300,8 @@ type Client struct {
 	// KeepBetween leaves the publishes that arrive between a SUBSCRIBE and its SUBACK in the inbox
 	// (in place) instead of handing them to the caller only.
 	KeepBetween bool
+	// Pending is scratch space for harnesses that parse the client's stream themselves.
+	Pending []byte
 }
 
 // Attach creates a transport pair and hands the server end to the broker, optionally wrapped.
